@@ -187,6 +187,32 @@ func greedy(b *harness.B, c *chaingen.Chain, led *chainmon.Ledger, cs consensus.
 			c.SignV2(cs, tt, nil)
 			try("v2-contract-value-raised-without-funding", blk)
 		}
+		if len(t.FileContracts) > 0 && len(t.SiacoinOutputs) > 0 {
+			// two contracts in one transaction, each worth 13 hastings more than a multiple of 25 (the tax rounds down
+			// per contract: 2 x floor(v/25), one hasting less than floor(2v/25)); the transaction pays one hasting
+			// MORE than contracts + taxes + fee: that hasting would belong to nobody
+			blk := chaingen.CloneBlock(orig)
+			tt := &blk.V2.Transactions[i]
+			fc := &tt.FileContracts[0]
+			v0 := fc.RenterOutput.Value.Add(fc.HostOutput.Value)
+			rem := v0.Sub(v0.Div64(25).Mul64(25))
+			bump := (13 + 25 - rem.Lo%25) % 25
+			fc.RenterOutput.Value = fc.RenterOutput.Value.Add(types.NewCurrency64(bump))
+			second := *fc
+			second.RevisionNumber++
+			tt.FileContracts = append(tt.FileContracts, second)
+			cost := func(x types.V2FileContract) types.Currency {
+				return x.RenterOutput.Value.Add(x.HostOutput.Value).Add(cs.V2FileContractTax(x))
+			}
+			extra := cost(second).Add(types.NewCurrency64(bump)).Add(cs.V2FileContractTax(*fc).Sub(cs.V2FileContractTax(t.FileContracts[0]))).Add(one)
+			if tt.SiacoinOutputs[0].Value.Cmp(extra) > 0 {
+				tt.SiacoinOutputs[0].Value = tt.SiacoinOutputs[0].Value.Sub(extra)
+				blk.V2.Transactions = blk.V2.Transactions[:i+1]
+				c.SignV2(cs, tt, nil)
+				try("v2-two-contracts-in-one-transaction-overpaid-by-one-hasting", blk)
+				b.Count("two_contract_transactions_tried", 1)
+			}
+		}
 		for k := range t.FileContractResolutions {
 			if _, ok := t.FileContractResolutions[k].Resolution.(*types.V2FileContractRenewal); ok {
 				blk := chaingen.CloneBlock(orig)
@@ -378,6 +404,55 @@ func greedy(b *harness.B, c *chaingen.Chain, led *chainmon.Ledger, cs consensus.
 			}
 			c.SignV1(cs, tt, nil)
 			try("v1-output-exceeds-inputs-by-one-hasting", blk)
+		}
+		if len(t.FileContractRevisions) > 0 {
+			// a revision pays out what the contract holds - the sums its parent pays out - whatever tax rule is in force
+			// when it is revised: (a) one tax step more; (b) the sums "payout minus tax" computed with the rule of
+			// the revising block, which differs from the parent's sums for a contract formed under the other rule
+			r0 := t.FileContractRevisions[0]
+			if pe, ok := c.S.FCEs[r0.ParentID]; ok && len(r0.FileContract.ValidProofOutputs) > 0 && len(r0.FileContract.MissedProofOutputs) > 0 {
+				var held types.Currency
+				for _, o := range pe.FileContract.ValidProofOutputs {
+					held = held.Add(o.Value)
+				}
+				rebased, under := pe.FileContract.Payout.SubWithUnderflow(cs.FileContractTax(pe.FileContract))
+				for _, v := range []struct {
+					name string
+					sum  types.Currency
+					skip bool
+				}{{"v1-revision-outputs-exceed-what-the-contract-holds", held.Add(types.NewCurrency64(10000)), false},
+					{"v1-revision-output-sums-recomputed-with-the-tax-rule-of-the-revising-block", rebased, under || rebased.Equals(held)}} {
+					if v.skip {
+						continue
+					}
+					blk := chaingen.CloneBlock(orig)
+					tt := &blk.Transactions[i]
+					fc := &tt.FileContractRevisions[0].FileContract
+					set := func(outs []types.SiacoinOutput) bool {
+						var rest types.Currency
+						for _, o := range outs[1:] {
+							rest = rest.Add(o.Value)
+						}
+						if v.sum.Cmp(rest) < 0 {
+							return false
+						}
+						outs[0].Value = v.sum.Sub(rest)
+						return true
+					}
+					if !set(fc.ValidProofOutputs) || !set(fc.MissedProofOutputs) {
+						continue
+					}
+					blk.Transactions = blk.Transactions[:i+1]
+					if blk.V2 != nil {
+						blk.V2.Transactions = nil
+					}
+					c.SignV1(cs, tt, nil)
+					try(v.name, blk)
+					if v.name[3:11] == "revision" && v.sum.Equals(rebased) {
+						b.Count("v1_revisions_of_contracts_formed_under_the_other_tax_rule", 1)
+					}
+				}
+			}
 		}
 		if len(t.FileContracts) > 0 {
 			blk := chaingen.CloneBlock(orig)
